@@ -21,6 +21,7 @@ from .sym import (VInt, VBool, VBytes, VSeq, VHex, VOpaque, Unsupported, Chunk,
                   zi, zb, mk_int, mk_bool, is_sym, to_vbytes, norm_bytes, bytes_concat,
                   bytes_len, chunk_slice, IntS, BoolS, BytesS, LBytesS)
 from .axioms import Axioms, pow_term
+from .seqabs import AbsSolver
 
 FEAS_TIMEOUT_MS = 3000
 
@@ -87,8 +88,7 @@ class Ctx:
         self.pc = []
         self.ax = Axioms()
         self.ax_inst = []
-        self.solver = z3.Solver()
-        self.solver.set("timeout", FEAS_TIMEOUT_MS)
+        self.solver = AbsSolver(FEAS_TIMEOUT_MS)
         self.obligs = []
         self.notes = {"inlined": set(), "unrolled": {}, "native": set(), "assumed_contracts": set()}
         self.counters = {}
@@ -146,11 +146,7 @@ class Ctx:
 
     def feasible(self, z):
         self.feed_axioms(z)
-        self.solver.push()
-        self.solver.add(z)
-        r = self.solver.check()
-        self.solver.pop()
-        return r != z3.unsat
+        return self.solver.check_with(z) != z3.unsat
 
     def valid(self, z):
         """PC => z (decided by the in-process solver; unknown counts as not valid)."""
@@ -160,11 +156,7 @@ class Ctx:
         if z3.is_true(z):
             return True
         self.feed_axioms(z)
-        self.solver.push()
-        self.solver.add(z3.Not(z))
-        r = self.solver.check()
-        self.solver.pop()
-        return r == z3.unsat
+        return self.solver.check_with(z3.Not(z)) == z3.unsat
 
     def decide(self, cond, loop_guard=False):
         if isinstance(cond, bool):
@@ -735,25 +727,9 @@ class Interp:
 
     def enumerate_int(self, v, maxn):
         """Fork over the feasible values of a symbolic int when there are at most maxn; returns the value."""
-        vals = []
-        s = self.ctx.solver
-        s.push()
-        try:
-            while len(vals) <= maxn:
-                if s.check() != z3.sat:
-                    break
-                m = s.model()
-                val = m.eval(v.z, model_completion=True)
-                if not z3.is_int_value(val):
-                    return None
-                vals.append(val.as_long())
-                s.add(v.z != val)
-            else:
-                return None
-            if s.check() != z3.unsat:
-                return None
-        finally:
-            s.pop()
+        vals = self.ctx.solver.enum_values(v.z, maxn)
+        if vals is None:
+            return None
         if not vals:
             raise DeadPath()
         vals.sort()
